@@ -22,14 +22,16 @@ ID = "C01"
 LEVEL = "exploration"
 SEGMENT_TIMEOUT = 200
 TIERS = {
-    "quick": dict(plans=72, budget_s=75, det_plans=2, advs=2),
+    "quick": dict(plans=81, budget_s=75, det_plans=2, advs=2),
     "thorough": dict(plans=8000, budget_s=1200, det_plans=8, advs=5, always_selftest=True),
 }
 READS = [(50, 2), (100, 5), (100, 4), (150, 5), (250, 10)]
 
 
 SCENARIOS = ["random", "short_reads_clustered_indel", "ambiguous_mnp", "random", "edge_variant", "structural",
-             "repeat_insertions", "multiallelic_het"]
+             "repeat_insertions", "multiallelic_het", "close_pair"]
+CLOSE = ["ins_ins", "del_del", "ins_del", "del_ins", "snp_ins_anchor", "snp_after_ins", "snp_before_del",
+         "snp_after_del", "snp_snp"]
 
 
 def gen_plan(rng, tier, i, seed):
@@ -38,6 +40,8 @@ def gen_plan(rng, tier, i, seed):
     read phase only, variant on the edge of the mapped range, structural alleles) are always present."""
     cfg = TIERS[tier]
     scen = SCENARIOS[i % len(SCENARIOS)]
+    if os.environ.get("ALDYSIM_C01_SCENARIO"):  # targeted soak of one family
+        scen = os.environ["ALDYSIM_C01_SCENARIO"]
     L, step = rng.choice(READS)
     o = WL.gene_opts(rng, small=True)
     o["cluster"] = rng.random() < 0.3
@@ -52,6 +56,8 @@ def gen_plan(rng, tier, i, seed):
     elif scen == "repeat_insertions":
         L, step = rng.choice([(100, 5), (150, 5)])
         o.update(repeat_ins=True, gene_len=rng.choice([480, 600]))
+    elif scen == "close_pair":
+        o.update(close_pair=CLOSE[(i // len(SCENARIOS)) % len(CLOSE)])
     elif scen == "multiallelic_het":
         o.update(multiallelic=True, ambiguous=False, n_major=4)
     elif scen == "structural":
@@ -72,6 +78,19 @@ def gen_plan(rng, tier, i, seed):
         units = [{"type": "normal", "allele": pick}, {"type": "normal", "allele": pick}]
         if rng.random() < 0.3:
             units.append({"type": "extra", "allele": pick})
+    elif scen == "close_pair" and g.get("cis_pair"):
+        a_, b_ = g["cis_pair"]
+        both = [a["name"] for a in normal if {a_, b_} <= set(a["vars"])]
+        onlya = [a["name"] for a in normal if a_ in a["vars"] and b_ not in a["vars"]]
+        onlyb = [a["name"] for a in normal if b_ in a["vars"] and a_ not in a["vars"]]
+        anyn = [a["name"] for a in normal]
+        form = rng.choice(["cis", "cis", "cis_hom", "trans"])
+        if form == "trans" and onlya and onlyb:
+            units = [{"type": "normal", "allele": onlya[0]}, {"type": "normal", "allele": onlyb[0]}]
+        elif form == "cis_hom" and both:
+            units = [{"type": "normal", "allele": both[0]}, {"type": "normal", "allele": both[0]}]
+        elif both:
+            units = [{"type": "normal", "allele": both[0]}, {"type": "normal", "allele": rng.choice(anyn)}]
     elif scen == "repeat_insertions" and g.get("cis_pair"):
         both = [a["name"] for a in normal if set(g["cis_pair"]) <= set(a["vars"])]
         only = [a["name"] for a in normal if g["cis_pair"][0] in a["vars"] and g["cis_pair"][1] not in a["vars"]]
@@ -138,11 +157,66 @@ def _crosstalk(plan):
     return out
 
 
+def _close_context(plan):
+    """Planted variants in the three situations the known findings describe: (cis) two catalogued indels a few
+    bases apart on one planted haplotype, (same_site) an insertion whose anchor base carries a planted
+    substitution of the same haplotype, (trans) two planted indels of the same kind and length within 60 bp
+    that are not carried by the same copies."""
+    g = plan["world"]["genes"][0]
+    units = plan["samples"]["s0"]["genes"][g["name"]]
+    V = g["variants"]
+    per_unit = [set(W.unit_variants(g, u)) for u in units if u["type"] != "deletion"]
+    span = lambda k: len(V[k]["alt"]) if V[k]["kind"] == "ins" else len(V[k]["ref"])  # noqa
+    cis, same, trans = set(), set(), set()
+    for vs_ in per_unit:
+        ind = sorted(k for k in vs_ if V[k]["kind"] in ("ins", "del"))
+        for a in ind:
+            for b in ind:
+                if a < b and abs(V[a]["g"] - V[b]["g"]) <= 12 + max(len(V[a]["ref"]), len(V[b]["ref"])):
+                    cis |= {a, b}
+        for a in vs_:
+            for b in vs_:
+                if (V[a]["kind"] == "ins" and V[b]["kind"] in ("snp", "mnp")
+                        and V[b]["g"] <= V[a]["g"] < V[b]["g"] + len(V[b]["ref"])):
+                    same |= {a, b}
+    carriers = lambda k: tuple(k in vs_ for vs_ in per_unit)  # noqa
+    allind = sorted({k for vs_ in per_unit for k in vs_ if V[k]["kind"] in ("ins", "del")})
+    for a in allind:
+        for b in allind:
+            if (a < b and V[a]["kind"] == V[b]["kind"] and span(a) == span(b)
+                    and abs(V[a]["g"] - V[b]["g"]) <= 60 and carriers(a) != carriers(b)):
+                trans |= {a, b}
+    return {"cis_indels": sorted(cis), "same_site": sorted(same), "trans_indels": sorted(trans)}
+
+
+def _major_funcs(g, name, drop):
+    """Core variants of a reported / planted major allele name minus `drop` (opaque token if unknown)."""
+    if "#" in str(name):
+        l, r = str(name).split("#", 1)
+        return ("fusion", _major_funcs(g, l, drop), _major_funcs(g, r, drop))
+    base = str(name).split("+")[0].strip("*")
+    for a in g["alleles"]:
+        if a["name"] == f"{base}.001":
+            return (a["kind"], a.get("brk"), tuple(sorted(v for v in a["vars"] if g["variants"][v]["func"] and v not in drop)))
+    return ("?", str(name), ())
+
+
+def _confined_majors(g, planted, reported, ids):
+    """Some reported combination equals the planted one once the listed variants are disregarded."""
+    want = sorted(map(repr, (_major_funcs(g, m, ids) for m in planted)))
+    return any(sorted(map(repr, (_major_funcs(g, m, ids) for m in rep))) == want for rep in reported)
+
+
 def judge(plan, outcome):
     vs = []
     g = plan["world"]["genes"][0]
     units = plan["samples"]["s0"]["genes"][g["name"]]
     xt = _crosstalk(plan)
+    cc = _close_context(plan)
+    ids = set(cc["cis_indels"]) | set(cc["same_site"]) | set(cc["trans_indels"])
+    shift = plan["world"]["hg38_shift"] if plan["build"] == "hg38" else 0
+    idmuts = {tuple(W.expected_mutation(g["variants"][k], shift)) for k in ids}
+    ccd = {k: [list(W.expected_mutation(g["variants"][x], shift)) for x in v] for k, v in cc.items() if v}
     for i, r in enumerate(outcome["runs"]):
         env = {"solver": "plain" if i == 0 else f"adversary:{plan['advs'][i - 1]}", "units": units,
                "read_length": plan["world"]["reads"]["L"], "strand": g["strand"], "build": plan["build"]}
@@ -150,21 +224,26 @@ def judge(plan, outcome):
             # planted genotypes always have reads: an error is only acceptable if the structure stage
             # could not be evaluated (precondition unknown)
             if r["precondition"] is True:
-                vs.append(_v("planted sample ended in an error", error=r["error"], **env))
+                vs.append(_v("planted sample ended in an error", error=r["error"], close_context=ccd,
+                             confined="could not phase any major solution" in (r["error"].get("msg") or ""), **env))
             continue
         if not r["precondition"]:
             continue
         if not r["planted_major_reported"]:
             vs.append(_v("planted combination of major star-alleles is not among the best solutions",
                          planted=r["planted_majors"], reported=r["reported_majors"],
-                         neighbouring_unplanted_indels=xt, **env))
+                         neighbouring_unplanted_indels=xt, close_context=ccd,
+                         confined=bool(ids) and _confined_majors(g, r["planted_majors"], r["reported_majors"], ids),
+                         **env))
         for k, s in enumerate(r["solutions"]):
             if s["variants"] != r["planted_variants"]:
                 got, want = Counter(map(tuple, s["variants"])), Counter(map(tuple, r["planted_variants"]))
                 vs.append(_v("a best solution's variants differ from the simulated haplotypes' variants",
                              solution=s["nice"], added=[list(x) for x in (got - want)][:4],
                              lost=[list(x) for x in (want - got)][:4], score=s["score"],
-                             neighbouring_unplanted_indels=xt, **env))
+                             neighbouring_unplanted_indels=xt, close_context=ccd,
+                             confined=bool(ids) and all(x in idmuts for x in list(got - want) + list(want - got)),
+                             **env))
                 break
     return vs
 
@@ -180,6 +259,15 @@ def signature(v):
                 sig["kind"] = "neighbouring-indel-crosstalk"
         else:
             sig["kind"] = "neighbouring-indel-crosstalk"
+    cc = d.get("close_context") or {}
+    if "kind" not in sig and d.get("confined"):
+        # the deviation involves nothing but the variants of the situation (see _close_context, judge)
+        if cc.get("same_site"):
+            sig["kind"] = "substitution-on-insertion-anchor"
+        elif cc.get("cis_indels"):
+            sig["kind"] = "close-cis-indels"
+        elif cc.get("trans_indels") and v["clause"] != "planted sample ended in an error":
+            sig["kind"] = "planted-indel-crosstalk"
     return sig
 
 
